@@ -268,12 +268,14 @@ def run(ctx):
     ctx.extra_cov['simulated_behaviours_replayed'] = len(sim_cases)
     ctx.extra_cov['probe_outcomes'] = outcomes
     ctx.extra_cov['model_checking'] = [{'cfg': f'MetaData.MC_{tier}.cfg', 'distinct': mcs[0].distinct}, {'cfg': f'MetaData.MCdur_{tier}.cfg', 'distinct': mcs[1].distinct}]
-    ctx.rule = ('generation: for every meta data state TLC reaches within MaxOps changing operations (two configurations: 2 databases x 3 '
+    ctx.rule = ('generation (one TLC worker, strict BFS): for every meta data state TLC reaches within MaxOps changing operations (two configurations: 2 databases x 3 '
                 'policy names / 1 database x 2 names with the duration scale), one witness history is replayed step by step and EVERY '
                 'operation of the model is probed in that state on a fresh client (sampled by seed when above budget); simulation: random '
                 'behaviours including refused and idle operations; leads: counterexamples of the contract under the code\'s quirks. After '
                 'every step: error class, index movement, listing, lookups, second client on the same store, listing after reload. '
-                'non-trivial = case whose final state holds at least one database with a policy; distinct by its operation sequence')
+                'non-trivial = case whose final state holds at least one database with a policy; distinct by its operation sequence. '
+                'Vacuity guards: every operation kind advanced a witness history (DropDatabase: probes and simulation only), every '
+                'operation kind and every error class occurred among the probes (the MC configurations share Next and the domains)')
     ctx.assumptions += [
         'single meta client, operations one at a time (the client serialises them under its mutex); kv store errors are not injected',
         'durations are concretised per case, one value per point of the scale (0, <1h incl. negative, 1h, (1h,1d), 1d, (1d,2d), 2d, (2d,7d), 7d, (7d,180d), 180d, >180d); "6 months" = 180 days',
